@@ -4,6 +4,7 @@ import conc_corr
 
 def explore(run, lean):
     conc_corr.explore(run, "C04", 150 if run.tier == "quick" else 3000, escalate=bool(lean.get("broken")))
+    conc_corr.explore_live(run, "C04", 30 if run.tier == "quick" else 600)
     run.extra["rule"] = ("scenarios: 1-3 poster threads x 1-4 fifo/lifo posts (+ handler self-posts), capacities 2,3,4,500, run on the "
                          "real ActiveObject under the deterministic scheduler with PCT (depth 1-3) or uniform random choosers and a "
                          "fair round-robin suffix; the recorded schedule is replayed on the Lean transition system and compared "
